@@ -130,7 +130,8 @@ def expand_spec(spec):
     return s
 
 
-def harness_text(lw, fn, ghosts, hname):
+def harness_text(lw, fn, ghosts, hname, fixed_args=None):
+    fixed_args = fixed_args or {}
     info = lw.fn_info[fn]
     lines = ['void %s(void)' % hname, '{']
     for (t, g) in ghosts:
@@ -139,7 +140,10 @@ def harness_text(lw, fn, ghosts, hname):
         lines.append('  { %s qx_nd; %s = qx_nd; }' % (t, g))
     args = []
     for nm, t, isref in info['params']:
-        lines.append('  %s;' % t.decl('a_' + nm, keep_const=False))
+        if nm in fixed_args:
+            lines.append('  %s = %s;' % (t.decl('a_' + nm, keep_const=False), fixed_args[nm]))
+        else:
+            lines.append('  %s;' % t.decl('a_' + nm, keep_const=False))
         args.append('a_' + nm)
     lines.append('  %s(%s);' % (fn, ', '.join(args)))
     lines.append('}')
@@ -233,7 +237,7 @@ def run_job(job, unit, workdir, log=print):
         # ghosts and helper text must precede the lowered functions (contracts refer to them)
         head, _, rest = text.partition('/* ---- end types ---- */')
         if mode == 'dfcc':
-            htext = harness_text(lw, job['fn'], ghosts, hname)
+            htext = harness_text(lw, job['fn'], ghosts, hname, job.get('fixed_args'))
         elif mode == 'harness':
             # loop-free / constant-bound harness: assume requires, call the real (lowered) function, assert ensures.
             # Callees without a body are stubs whose bodies come from the spec (trusted, listed in the evidence).
